@@ -114,7 +114,8 @@ func matchDescent(c *Ctx, rule string) {
 					return "glob child"
 				}
 				if u, ok := lk.Index.(*ssa.UnOp); ok {
-					if ia, ok := u.X.(*ssa.IndexAddr); ok && ia.X == pathP {
+					// (the lookup may sit in a helper that was handed the path: its parameter is the caller's)
+					if ia, ok := u.X.(*ssa.IndexAddr); ok && (ia.X == pathP || frameResolve(RV{ev.Args[0].F, ia.X}).V == pathP) {
 						if k, okc := constInt(ia.Index); okc && k == 0 {
 							return "path[0] child"
 						}
@@ -184,7 +185,8 @@ func matchDescent(c *Ctx, rule string) {
 	for _, rw := range all {
 		b := map[string]bool{"ISGLOB": rw.isglob, "!ISGLOB": !rw.isglob, "HASGLOB": rw.hasglob, "HASKEY": rw.haskey}
 		at := &Atoms{Class: cls, Bool: b, Int: map[string]int64{"PLEN": rw.plen, "NCHILD": rw.nchild, "ZERO": 0}}
-		e := &PPA{Cond: at.Cond, MaxVisits: 2, TraceLoads: true, Watch: func(ev *Ev) bool { return isRec(ev) || isClientsRange(ev) }}
+		// (three visits of a loop header: a slice of two collected children is processed to its end)
+		e := &PPA{Cond: at.Cond, MaxVisits: 3, TraceLoads: true, Watch: func(ev *Ev) bool { return isRec(ev) || isClientsRange(ev) }}
 		e.Run(upd)
 		c.Paths += len(e.Paths)
 		c.Scen++
